@@ -333,6 +333,29 @@ fn c04_q_spsc_async_pending_send_rx_gone() {
   std::mem::forget(f);
 }
 
+/// C04 (async): a pending send is woken by a receive that frees a slot, but the receiver goes away
+/// before the woken future is polled again: the send must still report Closed (nobody can receive).
+#[kani::proof]
+#[kani::unwind(5)]
+fn c04_q_spsc_async_woken_send_rx_gone() {
+  let (mut tx, mut rx) = spsc::bounded_async::<u8>(1);
+  assert!(tx.try_send(1).is_ok(), "C03: prefill failed");
+  let close: bool = kani::any();
+  let mut f = Some(tx.send(2));
+  assert!(poll_slot(&mut f, 0).is_pending(), "C03: send completed on a full channel");
+  assert!(rx.try_recv() == Ok(1), "C02: FIFO");
+  assert!(wakes(0) >= 1, "C06: pending send not woken when space appeared");
+  if close { let _ = rx.close(); } else { drop(rx); }
+  match poll_slot(&mut f, 0) {
+    Poll::Ready(Err(_)) => {}
+    Poll::Ready(Ok(())) => assert!(false, "C04: send completed after the last receiver went away"),
+    Poll::Pending => assert!(false, "C06: send still pending after the receiver went away"),
+  }
+  kani::cover!(close, "receiver closed");
+  kani::cover!(!close, "receiver dropped");
+  std::mem::forget(f);
+}
+
 /// Same for a pending send_batch: Closed hands every unsent value back, in order.
 #[kani::proof]
 #[kani::unwind(5)]
